@@ -127,6 +127,27 @@ def run(tier, seed):
                     fid = "major-eleventh-long-form-keyerror"
             R.fail(group, "neither-raises", "long form raised %s: %s" % (type(e).__name__, e), inp, finding=fid)
             long_ = None
+        # the non-default flags (no inversions / no polychords) through determine(): the answer is part of the full
+        # answer, the two forms still agree in length, and the caller's list is still untouched
+        if short is not None and long_ is not None and 3 <= len(chord) <= 7:
+            for flags in ((True, False), (False, True), (True, True)):
+                same2 = list(chord)
+                try:
+                    s2 = chords.determine(same2, True, flags[0], flags[1])
+                    l2 = chords.determine(same2, False, flags[0], flags[1])
+                except Exception as e:  # noqa
+                    R.fail(group, "neither-raises", "determine(chord, ., no_inversions=%r, no_polychords=%r) raised %s: %s"
+                           % (flags[0], flags[1], type(e).__name__, e), inp)
+                    continue
+                if same2 != inp:
+                    R.fail(group, "same-length-and-order", "determine(chord, ., no_inversions=%r, no_polychords=%r) changed the "
+                           "caller's chord to %r" % (flags[0], flags[1], same2), inp)
+                if isinstance(s2, list) and isinstance(l2, list):
+                    if len(s2) != len(l2):
+                        R.fail(group, "same-length-and-order", "with flags %r: shorthand %r vs long %r" % (flags, s2, l2), inp)
+                    if any(x not in short for x in s2):
+                        R.fail(group, "same-length-and-order", "with flags %r the answer %r is not part of the full answer %r"
+                               % (flags, s2, short), inp)
         for form, ans in (("shorthand", short), ("long", long_)):
             if ans is not None and not (isinstance(ans, list) and all(isinstance(x, str) for x in ans)):
                 R.fail(group, "same-length-and-order", "%s form is not a list of strings: %r" % (form, ans), inp)
